@@ -10,6 +10,7 @@ import (
 	"go/constant"
 	"go/token"
 	"go/types"
+	"gosx/smt"
 	"os"
 	"strings"
 	"unsafe"
@@ -1069,7 +1070,28 @@ func callBuiltin(caller *frame, callpos token.Pos, fn *ssa.Builtin, args []value
 		return res
 
 	case "copy": // copy([]T, []T) int or copy([]byte, string) int
-		src := args[1]
+		src := norm(args[1])
+		if bb, ok := args[0].(*byteBuf); ok {
+			ex := caller.i.x
+			var n *smt.Term
+			switch sv := src.(type) {
+			case *blob:
+				n = ex.term(ex.blobLen(sv))
+				nb := *sv
+				ex.nblob++
+				nb.id = ex.nblob
+				src = &nb
+			case symBytes:
+				n = ex.tb.StrLen(sv.t)
+			default:
+				ex.abandon("copy into a buffer of symbolic length from concrete bytes")
+			}
+			if n != bb.n {
+				ex.abandon("copy into a buffer whose symbolic length is not the length of the source")
+			}
+			bb.content = src
+			return sym{types.Int, n}
+		}
 		if _, ok := src.(string); ok {
 			params := fn.Type().(*types.Signature).Params()
 			src = conv(caller.i.x, params.At(0).Type(), params.At(1).Type(), src)
@@ -1120,7 +1142,10 @@ func callBuiltin(caller *frame, callpos token.Pos, fn *ssa.Builtin, args []value
 		return nil
 
 	case "len":
-		switch x := args[0].(type) {
+		if bb, ok := args[0].(*byteBuf); ok && bb.content == nil {
+			return sym{types.Int, bb.n}
+		}
+		switch x := norm(args[0]).(type) {
 		case string:
 			return len(x)
 		case sym:
@@ -1283,6 +1308,7 @@ func conv(ex *exec, t_dst, t_src types.Type, x value) value {
 		}
 		ex.abandon(fmt.Sprintf("unsupported conversion of symbolic %v to %v", sx.k, t_dst))
 	}
+	x = norm(x)
 	if b, ok := x.(*blob); ok {
 		if bd, ok := ut_dst.(*types.Basic); ok && bd.Kind() == types.String {
 			return ex.blobString(b)
